@@ -54,7 +54,7 @@ func oneHistory(c *Ctx, seed int64) (bool, error) {
 	if r.Intn(2) == 0 {
 		scen = agenth.Scenarios[1+r.Intn(len(agenth.Scenarios)-1)]
 	}
-	if scen == "stale_deferred" || scen == "supersede_renom" || (scen == "multi_pair" && r.Intn(2) == 0) {
+	if scen == "stale_deferred" || scen == "supersede_renom" || scen == "deferred_then_plain" || (scen == "multi_pair" && r.Intn(2) == 0) {
 		cfg.Renomination = true
 	}
 	if scen == "zero_failed_timeout" { // failed timeout disabled, disconnected timeout not
